@@ -60,6 +60,7 @@ type Monitors struct {
 	fsBase []string
 	prevStore  string
 	prevRef    string // the referrers switch before the last restart
+	othersPre  map[string][]string        // read surface of the other repositories before a collection (C16)
 	rootedPre  map[string]map[string]bool // repo -> digests that a top-level entry (other than a referrers response) leads to, before the collection
 	gcBefore   *gcPre
 	aged       map[string]bool // repo|digest whose age was set beyond the grace period
@@ -1702,6 +1703,13 @@ func (m *Monitors) gcSnapshot(h *H, repo string) *gcPre {
 // beforeGC / afterGC bracket an explicit collection of one repository
 func (m *Monitors) beforeGC(h *H, repo string) {
 	m.preGC(h, repo)
+	// C16: a collection of one repository changes nothing in any other (nested names included)
+	m.othersPre = map[string][]string{}
+	for other := range m.repos {
+		if other != repo && m.routable(h, other) && len(m.everSeen[other]) > 0 {
+			m.othersPre[other] = m.observe(h, other)
+		}
+	}
 	if !m.routable(h, repo) {
 		m.gcBefore = nil
 		return
@@ -1714,6 +1722,16 @@ func (m *Monitors) beforeGC(h *H, repo string) {
 }
 
 func (m *Monitors) afterGC(h *H, repo string) {
+	for other, before := range m.othersPre {
+		after := m.observe(h, other)
+		for i := range before {
+			if i < len(after) && before[i] != after[i] {
+				m.flag(h, "C16.collection-crosses-repositories", fmt.Sprintf("collecting %s changed %s: before %q, after %q", repo, other, before[i], after[i]))
+				break
+			}
+		}
+	}
+	m.othersPre = nil
 	pre := m.gcBefore
 	if pre == nil {
 		return
